@@ -2,6 +2,7 @@ package keeper
 
 import (
 	"github.com/SaoNetwork/sao/x/node/types"
+	"github.com/cosmos/cosmos-sdk/store/prefix"
 	sdk "github.com/cosmos/cosmos-sdk/types"
 	stakingtypes "github.com/cosmos/cosmos-sdk/x/staking/types"
 )
@@ -12,10 +13,34 @@ type Hooks struct {
 
 var _ stakingtypes.StakingHooks = Hooks{}
 
-var sharesBeforeModified = sdk.NewDec(0)
-
 func (k Keeper) Hooks() Hooks {
 	return Hooks{k}
+}
+
+// The shares a delegation had before the staking module modifies it are handed from
+// BeforeDelegationSharesModified to the hook that follows it through the store, so that they are
+// discarded together with the rest of a failed or simulated transaction.
+
+// SetSharesBeforeModified records the shares of the delegation that is about to be modified
+func (k Keeper) SetSharesBeforeModified(ctx sdk.Context, shares sdk.Dec) {
+	store := prefix.NewStore(ctx.KVStore(k.storeKey), types.KeyPrefix(types.SharesBeforeModifiedKey))
+	if shares.IsNil() || shares.IsZero() {
+		store.Delete([]byte{0})
+		return
+	}
+	store.Set([]byte{0}, k.cdc.MustMarshal(&sdk.DecProto{Dec: shares}))
+}
+
+// GetSharesBeforeModified returns the recorded shares, zero if there are none
+func (k Keeper) GetSharesBeforeModified(ctx sdk.Context) sdk.Dec {
+	store := prefix.NewStore(ctx.KVStore(k.storeKey), types.KeyPrefix(types.SharesBeforeModifiedKey))
+	b := store.Get([]byte{0})
+	if b == nil {
+		return sdk.NewDec(0)
+	}
+	var shares sdk.DecProto
+	k.cdc.MustUnmarshal(b, &shares)
+	return shares.Dec
 }
 
 func (hook Hooks) AfterValidatorCreated(ctx sdk.Context, valAddr sdk.ValAddress) error {
@@ -48,7 +73,7 @@ func (hook Hooks) BeforeDelegationCreated(ctx sdk.Context, delAddr sdk.AccAddres
 
 func (hook Hooks) BeforeDelegationSharesModified(ctx sdk.Context, delAddr sdk.AccAddress, valAddr sdk.ValAddress) error {
 	del := hook.k.staking.Delegation(ctx, delAddr, valAddr)
-	sharesBeforeModified = del.GetShares()
+	hook.k.SetSharesBeforeModified(ctx, del.GetShares())
 	return nil
 } // Must be called when a delegation's shares are modified
 
@@ -68,6 +93,7 @@ func (hook Hooks) BeforeValidatorSlashed(ctx sdk.Context, valAddr sdk.ValAddress
 
 func (hook Hooks) verifySuperStorageNodes(ctx sdk.Context, valAddr sdk.ValAddress, accAddr sdk.AccAddress, beforeDeletationRemoved bool) {
 	delegations := hook.k.staking.GetValidatorDelegations(ctx, valAddr)
+	sharesBeforeModified := hook.k.GetSharesBeforeModified(ctx)
 
 	//Records the shares that the validator shares have not been subtracted at the time of the unbond hook call
 	sharesToSub := sdk.NewDec(0)
@@ -128,6 +154,6 @@ func (hook Hooks) verifySuperStorageNodes(ctx sdk.Context, valAddr sdk.ValAddres
 
 	// reset shares before modified
 	if !sharesBeforeModified.IsZero() {
-		sharesBeforeModified = sdk.NewDec(0)
+		hook.k.SetSharesBeforeModified(ctx, sdk.NewDec(0))
 	}
 }
